@@ -452,6 +452,82 @@ example : (pageRows reqDesc (dir true ([(⟨10, 11⟩ : Lod), ⟨11, 12⟩].zip 
     ((candRows reqDesc (dir true ([(⟨10, 11⟩ : Lod), ⟨11, 12⟩].zip (storeDesc.headD [])))).drop 1).map (·.key.time) = [10] := by
   decide
 
+/-! ## the comparator of the final sort is the mathematical lexicographic order -/
+
+/-- **less_lex.** `less` — the model of queryTableRows.Less, which `rows_sorted` is stated over — is exactly the
+    lexicographic order on (time, number of tags, tag values, skey), with times and tag values compared as unbounded
+    integers: there is no pair of tag values, however far apart, on which it answers by anything but `<` on ℤ. The real
+    comparator must therefore agree with `<` on every pair of int64 values; the harness checks this directly on boundary
+    pairs (ops `cmp`, `mlt`; oracle `less-order`, `lessthan-order`). -/
+theorem less_lex (a b : RowRepr) : less a b = true ↔
+    a.time < b.time ∨ (a.time = b.time ∧ (a.tags.length < b.tags.length ∨ (a.tags.length = b.tags.length ∧
+      (a.tags < b.tags ∨ (a.tags = b.tags ∧ a.skey < b.skey))))) := by
+  rw [less_iff]
+  constructor
+  · rintro (h | ⟨h1, h | ⟨h2, h3⟩⟩)
+    · exact Or.inl h
+    · exact Or.inr ⟨h1, Or.inl h⟩
+    · exact Or.inr ⟨h1, Or.inr ⟨h2, (tl_lex _ _ _ _ h2).1 h3⟩⟩
+  · rintro (h | ⟨h1, h | ⟨h2, h3⟩⟩)
+    · exact Or.inl h
+    · exact Or.inr ⟨h1, Or.inl h⟩
+    · exact Or.inr ⟨h1, Or.inr ⟨h2, (tl_lex _ _ _ _ h2).2 h3⟩⟩
+
+theorem tags_eq_of_not_lt : ∀ (l1 l2 : List Int), l1.length = l2.length → ¬ l1 < l2 → ¬ l2 < l1 → l1 = l2 := by
+  intro l1
+  induction l1 with
+  | nil => intro l2 hl _ _; cases l2 with
+    | nil => rfl
+    | cons => simp at hl
+  | cons x l1 ih =>
+    intro l2 hl h1 h2
+    cases l2 with
+    | nil => simp at hl
+    | cons y l2 =>
+      rw [List.cons_lt_cons_iff] at h1 h2
+      have hxy : x = y := by
+        by_cases a : x < y
+        · exact absurd (Or.inl a) h1
+        · by_cases b : y < x
+          · exact absurd (Or.inl b) h2
+          · omega
+      subst hxy
+      have := ih l2 (by simpa using hl) (fun g => h1 (Or.inr ⟨rfl, g⟩)) (fun g => h2 (Or.inr ⟨rfl, g⟩))
+      rw [this]
+
+/-- it is a strict total order on row markers: two different markers are ordered one way or the other -/
+theorem less_total (a b : RowRepr) (h : a ≠ b) : less a b = true ∨ less b a = true := by
+  rw [less_lex, less_lex]
+  by_cases t1 : a.time < b.time
+  · exact Or.inl (Or.inl t1)
+  by_cases t2 : b.time < a.time
+  · exact Or.inr (Or.inl t2)
+  have et : a.time = b.time := by omega
+  by_cases l1 : a.tags.length < b.tags.length
+  · exact Or.inl (Or.inr ⟨et, Or.inl l1⟩)
+  by_cases l2 : b.tags.length < a.tags.length
+  · exact Or.inr (Or.inr ⟨et.symm, Or.inl l2⟩)
+  have el : a.tags.length = b.tags.length := by omega
+  by_cases g1 : a.tags < b.tags
+  · exact Or.inl (Or.inr ⟨et, Or.inr ⟨el, Or.inl g1⟩⟩)
+  by_cases g2 : b.tags < a.tags
+  · exact Or.inr (Or.inr ⟨et.symm, Or.inr ⟨el.symm, Or.inl g2⟩⟩)
+  have eg : a.tags = b.tags := tags_eq_of_not_lt _ _ el g1 g2
+  by_cases s1 : a.skey < b.skey
+  · exact Or.inl (Or.inr ⟨et, Or.inr ⟨el, Or.inr ⟨eg, s1⟩⟩⟩)
+  by_cases s2 : b.skey < a.skey
+  · exact Or.inr (Or.inr ⟨et.symm, Or.inr ⟨el.symm, Or.inr ⟨eg.symm, s2⟩⟩⟩)
+  have es : a.skey = b.skey := by omega
+  exfalso
+  apply h
+  cases a; cases b
+  simp_all
+
+/-- values more than 2^63 apart: the model orders them as integers (a comparator that subtracts would wrap) -/
+example : less ⟨10, [-6000000000000000000], 0⟩ ⟨10, [6000000000000000000], 0⟩ = true ∧
+    less ⟨10, [6000000000000000000], 0⟩ ⟨10, [-6000000000000000000], 0⟩ = false ∧
+    less ⟨10, [-9223372036854775808], 0⟩ ⟨10, [9223372036854775807], 0⟩ = true := by decide
+
 /-! ## old code (before 8d8821bd): the shared backing array of rowRepr.Tags -/
 
 /-- two handler-whats; the first answer holds the rows with tag 1 and 3, the second answer only a row with tag 2 -/
